@@ -157,6 +157,19 @@ def pair_rules(ctx, facts, rep, rule="C08-PAIR", side="both"):
     return ok
 
 
+def _clamped(v):
+    """does the expression pass through a clamp or a narrower integer type (min(), a narrowing cast, From<u8|u16|u32>)? Such a value
+    cannot stand for a 64-bit quantity: it saturates or wraps at the 16/32-bit limit"""
+    for x in walk(v):
+        if x[0] == "call" and re.search(r"::min$|::clamp$|saturating_", x[1]):
+            return True
+        if x[0] == "cast" and len(x) > 3 and str(x[3]) not in ("u64", "usize", "u128", "i128"):
+            return True
+        if x[0] == "call" and re.search(r"convert::(From<u16>|From<u8>|From<u32>)|<u64 as std::convert::From<u(8|16|32)>>|<usize as std::convert::From<u(8|16)>>", (x[3] or "") + x[1]):
+            return True
+    return False
+
+
 def eocd_rules(ctx, facts, rep, rule="C08-EOCD"):
     """finalize: ZIP64 end records are written whenever a clamped EOCD field cannot hold its value"""
     ok = True
@@ -204,9 +217,9 @@ def eocd_rules(ctx, facts, rep, rule="C08-EOCD"):
             cv = y[2] if y[0] in ("const", "named") else None
             toks = tokens(x)
             shown = show(x)
-            if op in ("Le",) and cv == ethr and ".files" in toks:
+            if op in ("Le",) and cv == ethr and ".files" in toks and not _clamped(x):
                 covered["count"] = True
-            if op in ("Le",) and cv == bthr:
+            if op in ("Le",) and cv == bthr and not _clamped(x):
                 # x may be max(central_size, central_start) or each separately
                 parts = [x]
                 if x[0] == "call" and re.search(r"::max$", x[1]):
@@ -236,6 +249,8 @@ def eocd_rules(ctx, facts, rep, rule="C08-EOCD"):
                 if not m_ or (m_.group(1) == "Gt" and v_ != 0) or (m_.group(1) == "Le" and v_ != 1):
                     continue
                 inner, c_ = m_.group(2), int(m_.group(3))
+                if re.search(r"\bmin\(|\bclamp\(|saturating_| as u(8|16|32)\b|From<u(8|16|32)>", inner):
+                    continue        # a clamped or narrowed value compared with the limit decides nothing
                 if c_ == ethr and re.search(r"len\(self\.files\)", inner):
                     got.add("count")
                 if c_ == bthr:
@@ -283,14 +298,14 @@ def eocd_rules(ctx, facts, rep, rule="C08-EOCD"):
             ok &= rep.check(v[0] == "const" and v[2] == 0, rule, "z64:%s" % fld, where(fz, s["span"]), "%s = 0" % fld, "ZIP64 %s = %s" % (fld, show(v)))
         sz = norm(ex.operand(flds["central_directory_size"], (bi, si)))
         st = norm(ex.operand(flds["central_directory_offset"], (bi, si)))
-        ok &= rep.check(sz[0] == "bin" and sz[1] == "Sub", rule, "z64:size", where(fz, s["span"]), "size = position after - position before", "ZIP64 size = %s" % show(sz))
-        ok &= rep.check(st[0] == "ok" and "stream_position()" in tokens(st), rule, "z64:offset", where(fz, s["span"]), "offset = position before the directory", "ZIP64 offset = %s" % show(st))
+        ok &= rep.check(sz[0] == "bin" and sz[1] == "Sub" and not _clamped(sz), rule, "z64:size", where(fz, s["span"]), "size = position after - position before", "ZIP64 size = %s" % show(sz))
+        ok &= rep.check(st[0] == "ok" and "stream_position()" in tokens(st) and not _clamped(st), rule, "z64:offset", where(fz, s["span"]), "offset = position before the directory", "ZIP64 offset = %s" % show(st))
     ag = list(aggregates(fz, r"^spec::Zip64CentralDirectoryEndLocator$"))
     if ag:
         bi, si, s, flds = ag[0]
         v = norm(ex.operand(flds["end_of_central_directory_offset"], (bi, si)))
-        good = v[0] == "bin" and v[1] == "Add" and "stream_position()" in tokens(v)
-        if not good:
+        good = v[0] == "bin" and v[1] == "Add" and "stream_position()" in tokens(v) and not _clamped(v)
+        if not good and not _clamped(v):
             # ... or the position taken right after the last central header (the minuend of the directory size): the same number
             agz = list(aggregates(fz, r"^spec::Zip64CentralDirectoryEnd$"))
             if agz:
